@@ -1,10 +1,8 @@
 import Bmc.Proofs.C01
-import Bmc.Proofs.GenKeys.TranslatedOk
 import Bmc.Proofs.GenKeys.SIK
 import Bmc.Proofs.GenKeys.Rakp2
 import Bmc.Proofs.GenKeys.Rakp3
 import Bmc.Proofs.GenKeys.ICV
-import Bmc.Proofs.GenKeys.KConstant
 import Bmc.Proofs.GenKeys.Tables
 import Bmc.Proofs.GenKeys.Integrity
 import Bmc.Proofs.GenKeys.Cipher
@@ -23,17 +21,11 @@ import Bmc.Proofs.GenKeys.Cipher
 #print axioms Bmc.Proofs.C01.command_answered
 #print axioms Bmc.Proofs.C01.all_commands_answered
 #print axioms Bmc.Proofs.C01.session_then_commands
-#print axioms Bmc.Proofs.GenKeys.translated_ok
-#print axioms Bmc.Proofs.GenKeys.hashOf_ok
 #print axioms Bmc.Proofs.GenKeys.calculateSIK_input_eq
 #print axioms Bmc.Proofs.GenKeys.calculateRAKPMessage2AuthCode_input_eq
 #print axioms Bmc.Proofs.GenKeys.calculateRAKPMessage3AuthCode_input_eq
 #print axioms Bmc.Proofs.GenKeys.calculateRAKPMessage4ICV_input_eq
 #print axioms Bmc.Proofs.GenKeys.calculateRAKPMessage4ICV_mac
-#print axioms Bmc.Proofs.GenKeys.K_constant_eq
-#print axioms Bmc.Proofs.GenKeys.K_input_eq
-#print axioms Bmc.Proofs.GenKeys.session_k1_k2
-#print axioms Bmc.Proofs.GenKeys.spec_k_is_K_input
 #print axioms Bmc.Proofs.GenKeys.authHash_is_table
 #print axioms Bmc.Proofs.GenKeys.icvLen_is_table
 #print axioms Bmc.Proofs.GenKeys.constructors_are_hmac
